@@ -9,7 +9,7 @@ import "gonum.org/v1/gonum/dsp/fourier/internal/fftpack"
 // QuarterWaveFFT implements Fast Fourier Transform for quarter wave data.
 type QuarterWaveFFT struct {
 	work []float64
-	ifac [15]int
+	ifac [64]int
 }
 
 // NewQuarterWaveFFT returns a QuarterWaveFFT initialized for work on sequences of length n.
